@@ -178,7 +178,26 @@ func ruleWireFor(w *World, r *RuleResult) {
 	}
 	var sites []site
 	seenSite := map[string]bool{}
+	// the states, and the functions of the module they call that are explored on their own
+	// (a helper with a loop that builds the list of mangled names)
+	scan := append([]*ssa.Function(nil), m.states...)
+	usedBy := map[string]map[string]bool{}
 	for _, s := range m.states {
+		ps, _ := w.Paths(s)
+		for _, p := range ps {
+			for i := range p.Events {
+				e := &p.Events[i]
+				if e.Kind == "call" && e.Callee != nil && e.Callee.Pkg == w.SLib && len(e.Callee.Blocks) > 0 {
+					if usedBy[e.Callee.Name()] == nil {
+						usedBy[e.Callee.Name()] = map[string]bool{}
+						scan = append(scan, e.Callee)
+					}
+					usedBy[e.Callee.Name()][s.Name()] = true
+				}
+			}
+		}
+	}
+	for _, s := range scan {
 		ps, _ := w.Paths(s)
 		for _, p := range ps {
 			for i := range p.Events {
@@ -250,7 +269,8 @@ func ruleWireFor(w *World, r *RuleResult) {
 			}
 		}
 	}
-	if len(sites) < 2 {
+	shared := len(sites) == 1 && len(usedBy[sites[0].fn]) >= 2
+	if len(sites) < 2 && !shared {
 		d.add(false, "mangle/sites", w.Pos(m.run.Pos()), "", fmt.Sprintf("expected a definition site and a reference site for mangled block labels, found %d", len(sites)))
 	} else {
 		ref := sites[0]
@@ -268,7 +288,13 @@ func ruleWireFor(w *World, r *RuleResult) {
 		for _, s := range sites {
 			fnsSeen[s.fn] = true
 		}
-		d.add(len(fnsSeen) >= 2, "mangle/both-sides", ref.pos, "definition and reference sites both mangle", "only one state mangles block labels")
+		both := len(fnsSeen) >= 2
+		for fn := range fnsSeen {
+			if len(usedBy[fn]) >= 2 {
+				both = true // one helper computes the names for the defining and the referencing state alike
+			}
+		}
+		d.add(both, "mangle/both-sides", ref.pos, "definition and reference sites both mangle", "only one state mangles block labels")
 	}
 	// (2) count wiring and counter substitution
 	for _, s := range m.states {
@@ -325,7 +351,7 @@ func ruleWireFor(w *World, r *RuleResult) {
 				if v, ok := sendOf(w, e); ok && v.Op == "struct" {
 					// a reference to a block label: the mangled name replaces a body token only under an exact
 					// comparison of that token's text with the label
-					if val := structField(v, "val"); val != nil && isMangled(p, val) {
+					if val := structField(v, "val"); val != nil && (isMangled(p, val) || (stripConv(val).Op == "elem" && stripConv(stripConv(val).A[0]).Op == "call" && makesMangledList(w, w.funcByKey(stripConv(stripConv(val).A[0]).S)))) {
 						fromContent := false
 						for _, cd := range p.Conds {
 							if cd.Atom.contains(func(x *T) bool { return x.Op == "elem" && strings.Contains(stripConv(x.A[0]).Show(), "forContent") }) {
@@ -338,7 +364,7 @@ func ruleWireFor(w *World, r *RuleResult) {
 									(strings.Contains(a.A[0].Show(), "forLineLabels") || strings.Contains(a.A[1].Show(), "forLineLabels")) &&
 									(strings.Contains(a.A[0].Show(), "forContent") || strings.Contains(a.A[1].Show(), "forContent"))
 							}) || hasCond(p, func(a *T, vv bool) bool {
-								return a.Op == "lt" && !vv && a.A[0].Op == "call" && strings.HasPrefix(a.A[0].S, "slices.Index") // j := slices.Index(labels, tok.val); j >= 0
+								return a.Op == "lt" && !vv && a.A[0].Op == "call" && strings.HasPrefix(a.A[0].S, "slices.Index[") // j := slices.Index(labels, tok.val); j >= 0
 							}) || hasCond(p, func(a *T, vv bool) bool {
 								return a.Op == "call" && vv && strings.HasPrefix(a.S, "slices.Contains") && len(a.A) == 2 &&
 									strings.Contains(a.A[0].Show(), "forLineLabels") && strings.Contains(a.A[1].Show(), "forContent")
